@@ -48,12 +48,21 @@ ObsWal(p, prev, written, openId) ==
       ns      == SyncedLen(head, 1, p.fsynced)
       disk    == [k \in 1..Len(p.files) |-> [idx |-> p.files[k].idx, items |-> NormItems(p.files[k].items)]]
       onDisk  == UNION ({AnyIds(disk[k].items) : k \in 1..Len(disk)} \cup {AnyIds(head0)})
+      allIt   == Flat([k \in 1..Len(disk) |-> disk[k].items] \o <<head0>>)
+      hdrOnly == {allIt[k].id : k \in {j \in 1..Len(allIt) : allIt[j].st = "hdr"}}
+                 \ {allIt[k].id : k \in {j \in 1..Len(allIt) : allIt[j].st = "pay"}}
+      HdrSizeOf(id) == allIt[CHOOSE k \in 1..Len(allIt) : allIt[k].id = id /\ allIt[k].st = "hdr"].size
   IN [disk |-> disk, hs |-> SubSeq(head, 1, ns), hu |-> SubSeq(head, ns + 1, Len(head)),
       part |-> IF hasPart THEN head0[Len(head0)].size ELSE 0,
       \* records leave the buffer in order: the newest ones, as many as account for the buffered bytes
-      buf  |-> IF p.open THEN TakeLast(SelectSeq(written, LAMBDA r : r.id >= openId /\ r.id \notin onDisk),
-                                       p.buffered + (IF hasPart THEN head0[Len(head0)].size ELSE 0))
-              ELSE << >>,
+      \* (of a record whose first group write is in a file and whose second is not, the second is buffered)
+      buf  |-> IF p.open
+               THEN TakeLast(LET cand == SelectSeq(written, LAMBDA r : r.id >= openId /\ (r.id \notin onDisk \/ r.id \in hdrOnly))
+                             IN [k \in 1..Len(cand) |->
+                                   IF cand[k].id \in hdrOnly THEN Chunk(cand[k], "pay", cand[k].size - HdrSizeOf(cand[k].id))
+                                   ELSE Whole(cand[k])],
+                             p.buffered + (IF hasPart THEN head0[Len(head0)].size ELSE 0))
+               ELSE << >>,
       gmin |-> IF p.open THEN p.gmin ELSE prev.gmin, gmax |-> IF p.open THEN p.gmax ELSE prev.gmax,
       open |-> p.open, extra |-> p.extra, cap |-> prev.cap, hlim |-> prev.hlim, tlim |-> prev.tlim]
 
@@ -151,21 +160,34 @@ StepReset(e) ==
   /\ gh' = EmptyGhost
   /\ UNCHANGED <<viol, drift>>
 
+(* wal.Write / wal.WriteSync.  e.nw = how many Group.Write calls the encoder made for the record,
+   e.gw their sizes, e.rot = k > 0: the harness ran the real checkHeadSizeLimit right after the
+   k-th of them (what the group's ticker goroutine may do at that point).  The design spec has
+   nw = 1; anything else is reported as drift and followed with the chunk semantics of TMWalOps. *)
 StepWrite(e, sync) ==
   LET r   == NormRec(e.rec)
       ws  == Append(gh.written, r)
-      w1  == WriteRec(w, r)
+      cs  == IF e.nw <= 1 THEN <<Whole(r)>> ELSE <<Chunk(r, "hdr", e.gw[1]), Chunk(r, "pay", r.size - e.gw[1])>>
+      w1  == WriteRec(w, cs[1])
+      w2  == IF e.rot = 1 THEN CheckHead(w1) ELSE w1
+      w3  == IF Len(cs) = 2 THEN WriteRec(w2, cs[2]) ELSE w2
+      w4  == IF e.rot >= 2 THEN CheckHead(w3) ELSE w3
       ok  == e.err = "none"
       g   == [gh EXCEPT !.written = ws, !.acked = IF sync /\ ok THEN gh.acked \cup SinceOpen(gh, ws) ELSE gh.acked]
       obs == ObsWal(e.post, w, ws, gh.openId)
-  IN Accept(IF sync THEN FlushSync(w1) ELSE w1, obs, g, e)
+      pred == IF sync THEN FlushSync(w4) ELSE w4
+  IN /\ w' = obs
+     /\ gh' = g
+     /\ drift' = drift \cup Drift(~Same(pred, obs), e.ev \o ": " \o WhatDiffers(pred, obs))
+                      \cup Drift(e.nw # 1, e.ev \o ": record written in " \o ToString(e.nw) \o " group writes")
+     /\ viol' = viol \cup StateViolP(obs, g, e.ev, e.post)
 
 StepFlush(e) ==
   LET g == [gh EXCEPT !.acked = IF e.err = "none" THEN gh.acked \cup SinceOpen(gh, gh.written) ELSE gh.acked]
   IN Accept(FlushSync(w), Post(e), g, e)
 
 StepFlushHalf(e) ==
-  Accept([w EXCEPT !.hu = w.hu \o GoodItems(w.buf), !.buf = << >>, !.part = 0], Post(e), gh, e)
+  Accept(FlushOnly(w), Post(e), gh, e)
 
 StepCheckHead(e) == Accept(CheckHead(w), Post(e), gh, e)
 
@@ -207,7 +229,7 @@ StepStop(e) ==
 
 \* records the start-up itself wrote: EndHeightMessage{0} of OnStart, then what the replay echoed
 RECURSIVE WriteAll(_, _)
-WriteAll(x, rs) == IF Len(rs) = 0 THEN x ELSE WriteAll(WriteRec(x, rs[1]), Tail(rs))
+WriteAll(x, rs) == IF Len(rs) = 0 THEN x ELSE WriteAll(WriteRec(x, Whole(rs[1])), Tail(rs))
 Dummy(id) == [id |-> id, kind |-> "eh", h |-> 0, size |-> 1]
 
 ReopenPred(e, rsy) ==
